@@ -453,6 +453,9 @@ func classifyB(c CaseB) core.Class {
 		tr = "smb"
 	}
 	cl := core.Class{Labels: []string{"format:" + formatName(c.Format), fmt.Sprintf("arch:%d", c.Arch), "name:" + class, enc, "transport:" + tr, fmt.Sprintf("name-on-cmdline:%v", onCmd)}}
+	if !c.Cfg.SMB {
+		cl.Labels = append(cl.Labels, hostLabels(c.Cfg.HTTP.Hosts)...)
+	}
 	cl.NonTrivial = nonDefaults(c.Cfg.Opts) >= 2 || (onCmd && class != "plain" && class != "empty")
 	cl.Fingerprint = fmt.Sprintf("%s|%s|%v|%s", formatName(c.Format), class, onCmd, enc)
 	return cl
